@@ -239,6 +239,48 @@ def oracle(run, lst, impl, ids, req, opt):
                     observed=ra, theorem="C14_apply_iff")
 
 
+def history_apply(run, ids, req):
+    """acceptance must not depend on what was applied to the same curve
+    before: for every set of steps that has a valid order, that order is
+    applied to ONE curve object and then every permutation of the set (and
+    the valid order again) is applied to the same object; each outcome must be
+    the declared one"""
+    from nanite import preproc
+    nbad = 0
+    with StubSteps():
+        for r in range(2, len(ids) + 1):
+            for sub in itertools.combinations(ids, r):
+                perms = [list(q) for q in itertools.permutations(sub)]
+                valid = [q for q in perms if decl_apply_ok(q, req) == "ok"]
+                if not valid:
+                    continue
+                obj = _FakeCurve()
+                history = [valid[0]]
+                try:
+                    preproc.apply(obj, identifiers=list(valid[0]), options={})
+                except BaseException:
+                    continue        # reported by the stateless sweep
+                for q in perms + [valid[0]]:
+                    try:
+                        preproc.apply(obj, identifiers=list(q), options={})
+                        got = "ok"
+                    except BaseException as e:
+                        got = _kind(e)
+                    exp = decl_apply_ok(q, req)
+                    run.case({"history": history[-1], "list": q, "apply": got},
+                             nontrivial=True, kind="apply-after-history")
+                    if got != exp and nbad < 20:
+                        nbad += 1
+                        run.failing(
+                            SITE_APPLY, "hist:" + ",".join(q),
+                            f"apply({q}) on a curve to which {history[-1]} "
+                            f"was applied before -> {got}, expected {exp}",
+                            payload={"kind": "rerun"}, expected=exp,
+                            observed=got, theorem="C14_apply_iff")
+                    if got == "ok":
+                        history.append(q)
+
+
 def check(run):
     from nanite import preproc
     run.sources = common.source_digests(["src/nanite/preproc.py"])
@@ -302,6 +344,7 @@ def check(run):
                 run.case({"list": lst, "autosort": im[0][0], "check": im[1],
                           "apply": im[2]}, nontrivial=len(lst) >= 2, kind=kind)
                 oracle(run, lst, im, ids, req, opt)
+    history_apply(run, ids, req)
     # available() itself
     av = preproc.available()
     if sorted(av) != sorted(ids) or not decl_ordered(av, req, opt):
